@@ -427,6 +427,15 @@ theorem judgeRoundtrip_model (T : Ty) (bytes : List Nat) (h : T.holds bytes.leng
   rw [hst]
   exact judgeRoundtrip_model_partial T bytes h hb
 
+/-- **C03/C09: the reparse step, judged as a parse** — the oracle's extra judgement of the bytes read back (canonical
+    encoding at their width, for every type) accepts the model's answer, for every text. -/
+theorem judgeReparse_model (T : Ty) (txt : List Nat) : judgeReparse T txt (pans (tryParseStr T txt)) = [] := by
+  have hj := judgeParse_model T txt
+  unfold judgeReparse
+  split
+  · rw [hj]; rfl
+  · rfl
+
 /-- the fixed-width case of `judgeRoundtrip_model` -/
 theorem judgeRoundtrip_model_fixed (T : Ty) (w : Nat) (hT : T.fixedN = some w) (bytes : List Nat)
     (h : T.holds bytes.length = true) (hb : ∀ x ∈ bytes, x < 256) :
